@@ -17,6 +17,11 @@ class RateMatrix(MatrixData):
             self.N = dim
             
         if data is not None:
+            # the rate matrix keeps its own array of real numbers: rates are
+            # not whole numbers, and setting a rate must not change the array
+            # (or another rate matrix) the data came from
+            data = numpy.array(data, dtype=numpy.float64)
+            
             # check if data are rectangular
             if data.shape[0] != data.shape[1]:
                 raise Exception("Expecting rectangular matrix")
